@@ -1949,9 +1949,12 @@ def bipartite_random_regular(l, r, d, seed=None):
         raise ValueError(
             "bipartite_random_regular(l,r,d) needs r to divid l*d.")
 
+    if l > 0 and d > r:
+        raise ValueError("bipartite_random_regular(l,r,d) needs d <= r.")
+
     name = "bipartite_random_regular({},{},{})".format(l, r, d)
 
-    if 2 * d > r:
+    if l > 0 and 2 * d > r:
         # Dense graph: sample its (sparse) bipartite complement. The
         # direct construction would get stuck again and again.
         H = bipartite_random_regular(l, r, r - d)
